@@ -27,6 +27,10 @@ pub mod unit;
 mod validate;
 pub mod value;
 
+#[cfg(metrique_verif)]
+#[doc(hidden)]
+pub mod verif_hooks;
+
 #[cfg(feature = "test-util")]
 #[doc(hidden)]
 pub use tokio as __tokio;
